@@ -271,13 +271,17 @@ func (r *Report) Finish(verif string, level string, floors floorsFile, known *Kn
 		"canaries":            map[string]any{"expected": len(canaryExpect), "failed": len(canaryFail), "skipped": canarySkipped != ""},
 		"exhaustive":          true,
 	}
+	assume := append([]string{
+		"the analysed build is linux/amd64 with -tags=verif; go/types and go/ssa model the program faithfully",
+		"the frozen role, accessor and guard tables transcribe the documentation correctly",
+	}, r.Assume...)
 	ev := map[string]any{
 		"property_id": r.Property,
 		"tier":        r.Tier,
 		"seed":        0,
 		"level":       level,
 		"coverage":    cov,
-		"assumptions": r.Assume,
+		"assumptions": assume,
 		"wall_s":      time.Since(r.start).Seconds(),
 		"violations":  nViol,
 	}
